@@ -456,7 +456,7 @@ type hSet struct {
 	id int
 }
 
-var hVerifies [2]bool // does the credential verify under authorised key i
+var hVerifies [3]bool // does the credential verify under authorised key i
 var hTheToken *hToken
 var hTheSecs hTokenSecs
 var hJWTParseArgs []string
@@ -650,7 +650,7 @@ func H04d() {
 		// the code never obtained a verified token
 		vCover("denied-before-verification")
 		vAssert(nextCalls == 0, "H04d.no_grant_without_token: handler reached although no token was verified")
-		vAssert(!(bearer && !hJWSFail && ns >= 1 && sigsClean && signer >= 0), "H04d.verifiable_token_verified: a hygienic credential that verifies under an authorised key was refused before verification")
+		vAssert(!(bearer && !hJWSFail && ns == 1 && sigsClean && signer >= 0), "H04d.verifiable_token_verified: a hygienic credential that verifies under an authorised key was refused before verification")
 		tok = &hToken{}
 	}
 	audOK := false
@@ -659,7 +659,7 @@ func H04d() {
 			audOK = true
 		}
 	}
-	good := bearer && !hJWSFail && ns >= 1 && sigsClean && signer >= 0 && hTimeValid && audOK &&
+	good := bearer && !hJWSFail && ns == 1 && sigsClean && signer >= 0 && hTimeValid && audOK &&
 		hBestPracticeRef(tok, sec, hUUIDOK) && tok.iss == m.authorizedKeys[signer].comment
 	if nextCalls == 1 {
 		vCover("granted")
@@ -695,7 +695,7 @@ func H04d() {
 		_, isWriter := ctx.Get(core.ErrorWriterContextKey).(*unauthorizedErrorWriter)
 		vAssert(isWriter, "H04d.denied_uniform_body: refused request does not use the uniform 401 error writer")
 		vAssert(!good, "H04d.valid_token_granted: a request satisfying every rule was refused")
-		if bearer && !hJWSFail && ns >= 1 && sigsClean {
+		if bearer && !hJWSFail && ns == 1 && sigsClean {
 			if signer < 0 {
 				vCover("denied-no-key-verifies")
 			} else if !hTimeValid || !audOK {
